@@ -12,7 +12,7 @@ from .common import DIMSETS, sym_mesh
 
 META = dict(
     bounds=dict(
-        quick=dict(ndim="1..3", n="each axis in {1,2,3,4} (mixes of even, odd, single-cell)", nvdim="1..3", labels="default / custom (incl. labels starting with f, t, _) / none",
+        quick=dict(ndim="1..3", n="each axis in {1,2,3,4,6} (mixes of even, odd, single-cell)", nvdim="1..3", labels="default / custom (incl. labels starting with f, t, _) / none",
                    transforms="fftn, ifftn, rfftn, irfftn with and without shape"),
         thorough=dict(ndim="1..4", n="each axis in {1,2,3,4,6}", nvdim="1..3", labels="as quick", transforms="as quick"),
     ),
@@ -323,9 +323,9 @@ def tasks(tier):
     q = tier == "quick"
     t = []
     big = dict(timeout_ms=90000, wall_budget=1500)
-    shapes = [((4,), 1), ((3,), 2), ((1,), 1), ((2, 3), 2), ((3, 1), 1), ((4, 2), 1), ((1, 3), 2), ((2, 1, 3), 3), ((1, 2, 2), 1)]
+    shapes = [((4,), 1), ((3,), 2), ((1,), 1), ((6,), 1), ((2, 3), 2), ((3, 1), 1), ((4, 2), 1), ((1, 3), 2), ((3, 3), 2), ((2, 1, 3), 3), ((1, 2, 2), 1), ((2, 2, 1), 1)]
     if not q:
-        shapes += [((6,), 1), ((2,), 3), ((3, 3), 2), ((4, 4), 1), ((6, 2), 1), ((3, 2, 2), 3), ((2, 2, 1), 1), ((2, 1, 2, 3), 1), ((1, 2, 1, 2), 2)]
+        shapes += [((2,), 3), ((4, 4), 1), ((6, 2), 1), ((3, 2, 2), 3), ((2, 3, 4), 1), ((2, 1, 2, 3), 1), ((1, 2, 1, 2), 2)]
     for i, (n, nv) in enumerate(shapes):
         lab = ("default", "custom", "tricky")[i % 3]
         mp = ("default", "permuted", "none")[i % 3]
